@@ -10,7 +10,15 @@ MANIFEST = dict(
     text=("Lean 4 theorems over the executable WAL model: the roll-forward of a log of absolute-address records is idempotent over every "
           "partially applied image (replay_idempotent: a kill between any two records of a checkpoint or of the recovery itself is harmless), "
           "and a regular checkpoint killed after any number of records is completed exactly by the recovery at the next open "
-          "(checkpoint_kill_recovers); kills between checkpoints are the cut-log theorem of C05. Exhaustive crash enumeration on the real "
+          "(checkpoint_kill_recovers); kills between checkpoints are the cut-log theorem of C05. Over an executable model of the writer "
+          "(Model/WalWriter.lean: log buffer with the payload-outside-the-segment rule, flush, fsync, savepoint, checkpoint, forced checkpoint, "
+          "truncate) and for every trace of its steps without a resize (hypothesis noForcedCheckpointInsideOp, finding F26): after a kill at any "
+          "point, with the log file cut anywhere at or after its last fsync, recovery yields the main-file image of a savepoint of the trace not "
+          "older than the last one synced, the last savepoint for pure process death, and the checkpoint's savepoint when killed while records are "
+          "applied (writer_recover_savepoint_partial); a completed checkpoint leaves main = replay(log) and an empty log (checkpoint_preserves); "
+          "the forced checkpoint exposes unsaved records (forced_checkpoint_exposes_unsaved, witness). The writer model is fed the listener "
+          "events recorded from real runs and must issue the same system calls on the log with the same bytes, keep the same flags, log file, "
+          "buffer, main file after checkpoints and recovery result. Exhaustive crash enumeration on the real "
           "code: a child runs random put/del/sync/new-db/checkpoint/close histories and is killed before every single file-system effect "
           "(write, ftruncate, fsync, msync, and the store of every log record during checkpoints incl. growth-forced ones, plus kills inside "
           "the recovery); the store is reopened and must equal the python reference after a prefix of the operations that contains "
@@ -18,7 +26,8 @@ MANIFEST = dict(
           "model byte for byte"),
     note=("trusted: Lean kernel, translator, harness/generators, gcc+ASan/UBSan, Linux page-cache semantics of process death (completed "
           "write/ftruncate and MAP_SHARED stores survive, MAP_PRIVATE and user buffers are lost); modelled not verified: C control flow; "
-          "no theorem over traces of the writer (the enumeration covers that part); idempotence is proved for logs without WBRESIZE/WBCOPY; "
+          "the trace theorem is about byte images at savepoints, its composition with the KV layer (savepoint image = prefix of operations) is covered "
+          "by the enumeration only; no WBCOPY in the kill-while-applying part; idempotence is proved for logs without WBRESIZE/WBCOPY; "
           "the property fails on the tree in the window of open finding F26 (resize-forced checkpoint without savepoint, incl. the tail trim "
           "of iwkv_close); checkpoint thread idle; tree = /repo + fix commits of branch fix-wal0504"),
     technique="Lean 4 proof over executable model + crash enumeration with link-time interposers + differential correspondence")
@@ -250,6 +259,57 @@ def gen_writer_history(r, wd, tag, nops):
     return ops, crc, buf, path
 
 
+def gen_raw_history(r, wd, tag, nops):
+    """The listener driven directly inside a free region at the end of a pre-grown file: exact fits of payload and header,
+    WBCOPY, onsynced -- what KV operations produce rarely or never. No KV operation follows the raw events and the store is
+    not closed (its contents are overwritten on purpose)."""
+    path = os.path.join(wd, tag + ".db")
+    crc = r.choice([0, 1])
+    buf = r.choice([4096, 8192])
+    grow = 70000
+    ops = ["open %s %d %d" % (path, crc, buf), "db 1", "put 1 %s %d 9" % (b"grow".hex(), grow), "del 1 %s" % b"grow".hex(),
+           "ckpt", "rec %s %s" % (os.path.join(wd, tag + ".ev"), os.path.join(wd, tag + ".main0"))]
+    return ops, crc, buf, path
+
+
+def raw_ops(r, wd, tag, nops, msz, buf):
+    lo, hi = msz - 40000, msz          # stores stay inside [lo, hi)
+    ops, nsnap = [], 0
+    off = lambda ln: r.randrange(lo, hi - ln)
+    for _ in range(nops):
+        x = r.random()
+        if x < 0.22:
+            ops.append("raw write %d fit%d %d" % (off(buf + 8), r.choice([0, 0, 1, -1, 2, -20, 5]), r.randrange(1, 250)))
+        elif x < 0.40:      # leave r bytes free, then a record whose header (20/24/28 bytes) just fits or just does not
+            ops.append("raw room %d %d %d" % (off(buf), r.choice([0, 1, 11, 12, 19, 20, 21, 23, 24, 25, 27, 28, 29]), r.randrange(1, 250)))
+            k = r.random()
+            if k < 0.4:
+                ops.append("raw write %d %d %d" % (off(64), r.choice([0, 1, 7, 30]), r.randrange(1, 250)))
+            elif k < 0.7:
+                ops.append("raw set %d %d %d" % (off(600), r.randrange(256), r.choice([0, 1, 500])))
+            else:
+                ln = r.choice([0, 1, 300])
+                ops.append("raw copy %d %d %d" % (off(ln + 1), ln, off(ln + 1)))
+        elif x < 0.55:
+            ops.append("raw write %d %d %d" % (off(3 * buf), r.choice([0, 1, 40, 300, buf - 21, buf - 20, buf - 19, buf, 2 * buf + 5]), r.randrange(1, 250)))
+        elif x < 0.65:
+            ops.append("raw set %d %d %d" % (off(5000), r.randrange(256), r.choice([0, 1, 17, 4096])))
+        elif x < 0.75:
+            ln = r.choice([0, 1, 64, 2000])
+            ops.append("raw copy %d %d %d" % (off(ln + 1), ln, off(ln + 1)))
+        elif x < 0.80:
+            ops.append("raw synced")
+        elif x < 0.90:
+            ops.append("sync")
+        elif x < 0.95:
+            ops.append("ckpt")
+        elif nsnap < 3:
+            ops.append("snap %s %s %s" % tuple(os.path.join(wd, "%s.s%d.%s" % (tag, nsnap, k)) for k in ("main", "wal", "buf"))); nsnap += 1
+    ops.append("snap %s %s %s" % tuple(os.path.join(wd, "%s.s%d.%s" % (tag, nsnap, k)) for k in ("main", "wal", "buf")))
+    ops.append("stop")
+    return ops
+
+
 def convert_events(evpath):
     """event file of h_walw -> [(model op, system calls on the log that followed, flags line or None, checkpoint-end line or None)]"""
     recs = [l.rstrip("\n") for l in open(evpath)]
@@ -293,9 +353,20 @@ def writer_tie(ctx, drv, label, nhist, nops):
     r = C.Rng(ctx.seed, "c04/writer/" + label)
     wd = os.path.join(C.scratch(), "c04w-" + label)
     os.makedirs(wd, exist_ok=True)
-    for hi in range(nhist):
+    for hi in range(nhist + max(2, nhist // 3)):
         tag = "w%d" % hi
-        ops, crc, buf, path = gen_writer_history(r, wd, tag, r.randrange(max(4, nops // 2), nops))
+        raw = hi >= nhist
+        if raw:
+            # two passes: the set-up tells the size of the file, the raw events are placed inside its free tail
+            ops, crc, buf, path = gen_raw_history(r, wd, tag, nops)
+            rc, out, err = C.run_lines([h], ops, timeout=300)
+            recl = [o for o in out if o.startswith("rec ok")]
+            if rc != 0 or not recl:
+                ctx.corr_broken.append("writer tie: raw-listener set-up failed: %s %s" % (out[-1:], err[-200:]))
+                continue
+            ops = ops + raw_ops(r, wd, tag, r.randrange(nops, 2 * nops), int(W.field(recl[0], "msz")), buf)
+        else:
+            ops, crc, buf, path = gen_writer_history(r, wd, tag, r.randrange(max(4, nops // 2), nops))
         rc, out, err = C.run_lines([h], ops, timeout=300)
         if rc != 0 or len(out) != len(ops) or not any(o.startswith("rec ok") for o in out):
             kind, fn = san_site(err)
@@ -326,8 +397,9 @@ def writer_tie(ctx, drv, label, nhist, nops):
             ctx.corr_broken.append("writer model driver failed on history %s: rc=%s %s" % (tag, rc, me[-300:]))
             continue
         # the real recovery of every snapshot pair (kill at that instant)
-        rl = ["recov %s %s %s %d" % (os.path.join(wd, "rw.db"), sn[0], sn[1], crc) for sn in snaps]
-        rc, ro, re_ = C.run_lines([h], rl, timeout=300)
+        # (not for raw-listener histories: they overwrite the store's contents, the KV layer may refuse the file)
+        rl = [] if raw else ["recov %s %s %s %d" % (os.path.join(wd, "rw.db"), sn[0], sn[1], crc) for sn in snaps]
+        rc, ro, re_ = C.run_lines([h], rl, timeout=300) if rl else (0, [], "")
         if rc != 0 or len(ro) != len(rl):
             kind, fn = san_site(re_)
             ctx.fail(dict(kind="crash", phase="writer-recover", site=fn, what=kind), dict(lines=ops, recov=rl, stderr=re_[-3000:]),
@@ -348,7 +420,11 @@ def writer_tie(ctx, drv, label, nhist, nops):
                 op, effs, st, t1 = wh[1]
                 ctx.cov["traces_validated_against_impl"] += 1
                 ctx.case(("writer", label, hi, wi))
-                ctx.hist("writer-step-" + op.split()[0])
+                ctx.hist("writer-step-" + op.split()[0] + ("-raw" if raw else ""))
+                if raw and op.startswith("write"):
+                    # how the payload met the buffer: inside with room to spare, filling it exactly, written outside
+                    bp = W.field(st, "bufpos") if st else None
+                    ctx.hist("writer-raw-payload-" + ("outside" if effs.count("W:") >= 1 and bp == "0" else "fills-buffer" if bp == W.field(recl, "bufsz") else "inside"))
                 if "W:" in effs and effs.count("W:") >= 2 and op.startswith("write"):
                     ctx.hist("writer-payload-outside-segment")
                 me_, ms = o.split(" | ") if " | " in o else (o, "")
@@ -377,6 +453,8 @@ def writer_tie(ctx, drv, label, nhist, nops):
                     first = next((i for i in range(min(len(real), len(model))) if real[i] != model[i]), min(len(real), len(model)))
                     diverge("%s at snapshot %d differs: %d vs %d bytes, first difference at %d" % (part, k, len(real), len(model), first))
             elif wh[0] == "recover":
+                if raw:
+                    continue
                 ctx.hist("writer-kill-recover-compared")
                 if ro[wh[1]] != o:
                     diverge("recovery after a kill at snapshot %d: impl `%s` model `%s`" % (wh[1], ro[wh[1]], o))
